@@ -68,7 +68,7 @@ func VerifNewRig(name string, cfg *service.Config, hosts []*host.Host, addrs []s
 	p.initCommandHandlers()
 	clients := make(map[string]*client)
 	for _, a := range addrs {
-		clients[a] = &client{
+		c := &client{
 			cfg:            p.cfg,
 			logger:         logger,
 			pendingReqs:    make(chan *simpleRequest, 4096),
@@ -78,6 +78,8 @@ func VerifNewRig(name string, cfg *service.Config, hosts []*host.Host, addrs []s
 			quit:           make(chan struct{}),
 			done:           make(chan struct{}),
 		}
+		c.initFilters() //nolint:errcheck
+		clients[a] = c
 	}
 	p.u.updateClients(clients)
 	sorted := append([]string{}, addrs...)
@@ -200,3 +202,11 @@ func (r *VerifRig) SlotOwner(slot int) (string, []string) {
 	}
 	return inst.Addr, reps
 }
+
+// Filter runs the backend connection's real filter chain on the queued request, as
+// client.loopWrite does before encoding it. It returns false when a filter stopped
+// (and answered) the request.
+func (s *VerifSent) Filter() bool { return s.c.filter.Do(s.req) == Continue }
+
+// SetConfig replaces the service configuration, as OnSvcConfigUpdate does.
+func (r *VerifRig) SetConfig(cfg *service.Config) { r.p.cfg.Update(cfg) }
